@@ -2,7 +2,7 @@
    startup reset and hold/release preserve Inv. *)
 From Coq Require Import List NArith Bool Lia.
 From SV Require Import lib.Bytes lib.Closure model.Graph model.GraphInv
-  proofs.GraphBase proofs.GraphNodes proofs.GraphInvP proofs.GraphPrims proofs.GraphCreate proofs.GraphOps.
+  proofs.GraphBase proofs.GraphNodes proofs.GraphInvP proofs.GraphPrims proofs.GraphFrames proofs.GraphCreate proofs.GraphOps.
 Import ListNotations.
 Open Scope N_scope.
 
@@ -141,15 +141,17 @@ Qed.
 (* ------------------------------------------------------------------------------------------ *)
 Lemma detach_list_spec strict ps s :
   Inv hh s -> (forall p, In p ps -> p <> root_key /\ In p (KL (nodes s))) ->
-  wpg strict (foldM (fun s p => node_detach p s) ps s) (fun s' => Inv hh s' /\ NodeOnly s s').
+  wpg strict (foldM (fun s p => node_detach p s) ps s) (fun s' => Inv hh s' /\ NodeOnly s s' /\ G3 s s').
 Proof.
   intros HI Hps.
-  apply (wpg_foldM strict _ (fun s' => Inv hh s' /\ NodeOnly s s')); [|split; [exact HI | apply NodeOnly_refl]].
-  intros s1 p Hp [I1 N1]. destruct (Hps p Hp) as [Hp1 Hp2].
+  apply (wpg_foldM strict _ (fun s' => Inv hh s' /\ NodeOnly s s' /\ G3 s s')); [|split; [exact HI | split; [apply NodeOnly_refl | apply G3_refl]]].
+  intros s1 p Hp [I1 [N1 G1]]. destruct (Hps p Hp) as [Hp1 Hp2].
   eapply wpg_weaken.
-  - apply (@node_detach_spec hh); [exact I1 | exact Hp1 |]. intros _. apply find_node_KL.
-    destruct N1 as [N1 _]. rewrite N1. exact Hp2.
-  - intros s2 [I2 [N2 _]]. split; [exact I2 | eapply NodeOnly_trans; eassumption].
+  - apply wpg_conj_lax.
+    + apply (@node_detach_spec hh); [exact I1 | exact Hp1 |]. intros _. apply find_node_KL.
+      destruct N1 as [N1 _]. rewrite N1. exact Hp2.
+    + apply wpg_of_ok. intros s2 H2. exact (node_detach_G3 _ _ _ H2).
+  - intros s2 [[I2 [N2 _]] G2]. split; [exact I2|]. split; [eapply NodeOnly_trans; eassumption | eapply G3_trans; eassumption].
 Qed.
 
 Lemma products_facts k s p : Inv hh s -> k <> root_key -> In p (products k s) ->
@@ -177,8 +179,26 @@ Qed.
 Lemma NodeOnly_KL s s' : NodeOnly s s' -> KL (nodes s') = KL (nodes s).
 Proof. intros [H _]. exact H. Qed.
 
+Lemma cond_wpg {A} (P : Prop) (r : res A) (Q : A -> Prop) :
+  (P \/ ~ P) -> (P -> wpg false r Q) -> wpg false r (fun a => P -> Q a).
+Proof.
+  intros [H|H] Hw; [eapply wpg_weaken; [apply Hw; exact H | auto] | apply wpg_of_ok; intros; contradiction].
+Qed.
+
+Lemma ns_dec l s : sstate_of l s <> Some SSucceeded \/ ~ (sstate_of l s <> Some SSucceeded).
+Proof. destruct (sstate_of l s) as [[]|]; try (left; discriminate). right. intros H. apply H. reflexivity. Qed.
+
+Lemma products_creator k s p : Inv hh s -> In p (products k s) -> creator_of p s = Some k.
+Proof.
+  intros HI Hp. rewrite products_eq in Hp. apply in_map_iff in Hp. destruct Hp as [n [Hn1 Hn2]].
+  apply filter_In in Hn2. destruct Hn2 as [Hn2 Hn3]. apply is_prod_of_true in Hn3. destruct Hn3 as [Hc _].
+  rewrite creator_of_findn, <- Hn1, (In_findn _ _ (nw_nodup _ (inv_nw _ HI)) Hn2). exact Hc.
+Qed.
+
 Lemma reset_for_rerun_spec strict step s :
-  Inv hh s -> wpg strict (reset_for_rerun step s) (fun s' => Inv hh s').
+  Inv hh s ->
+  wpg strict (reset_for_rerun step s)
+      (fun s' => Inv hh s' /\ (sstate_of step s <> Some SSucceeded -> GG s s')).
 Proof.
   intros HI. unfold reset_for_rerun. set (k := (KStep, step)).
   assert (Hk : k <> root_key) by discriminate.
@@ -188,10 +208,11 @@ Proof.
   assert (I2 : Inv hh s2).
   { apply Inv_set_envs; [exact I1|]. intros x Hx. apply in_map_iff in Hx. destruct Hx as [e [He1 He2]].
     apply filter_In in He2. apply (rw_estep _ _ _ _ _ (inv_rw _ I1)). rewrite <- He1. apply in_map. tauto. }
+  assert (G02 : G3 s s2). { eapply G3_trans; [apply set_deps_G3 | apply set_envs_G3]. }
   set (dsinks := map dsnk (filter (fun d => key_eqb (dsrc d) k && ddyn d) (deps s2))).
   apply wpg_bind. eapply wpg_weaken.
-  { apply (wpg_foldM strict _ (fun s' => Inv hh s' /\ KL (nodes s') = KL (nodes s2))); [|split; [exact I2 | reflexivity]].
-    intros s' x Hx [I' K'].
+  { apply (wpg_foldM strict _ (fun s' => Inv hh s' /\ KL (nodes s') = KL (nodes s2) /\ G3 s2 s')); [|split; [exact I2 | split; [reflexivity | apply G3_refl]]].
+    intros s' x Hx [I' [K' G']].
     assert (Hx' : x <> root_key /\ In x (KL (nodes s2))).
     { unfold dsinks in Hx. apply in_map_iff in Hx. destruct Hx as [d [Hd1 Hd2]]. apply filter_In in Hd2.
       destruct Hd2 as [Hd2 Hd3]. apply andb_true_iff in Hd3. destruct Hd3 as [Hd3 _]. apply key_eqb_eq in Hd3.
@@ -200,39 +221,55 @@ Proof.
         intros ->. discriminate.
       - rewrite <- Hd1. apply (dw_snk _ _ (inv_dw _ I2)). exact Hd2. }
     eapply wpg_weaken.
-    - apply (@node_detach_spec hh); [apply del_deps_where_inv; exact I' | apply Hx' |].
-      intros _. apply find_node_KL. cbn [nodes del_deps_where set_deps]. rewrite K'. apply Hx'.
-    - intros s'' [I'' [N'' _]]. split; [exact I''|]. rewrite (NodeOnly_KL _ _ N''). exact K'. }
-  intros s3 [I3 _].
+    - apply wpg_conj_lax.
+      + apply (@node_detach_spec hh); [apply del_deps_where_inv; exact I' | apply Hx' |].
+        intros _. apply find_node_KL. cbn [nodes del_deps_where set_deps]. rewrite K'. apply Hx'.
+      + apply wpg_of_ok. intros s'' H''. exact (node_detach_G3 _ _ _ H'').
+    - intros s'' [[I'' [N'' _]] G'']. split; [exact I''|]. split; [rewrite (NodeOnly_KL _ _ N''); exact K'|].
+      eapply G3_trans; [exact G'|]. eapply G3_trans; [apply set_deps_G3 | exact G'']. }
+  intros s3 [I3 [_ G23]].
   apply wpg_bind. unfold detach_created_steps. eapply wpg_weaken.
   { apply detach_list_spec; [exact I3|]. intros p Hp. apply filter_In in Hp. destruct Hp as [Hp _].
     eapply products_facts; eassumption. }
-  intros s4 [I4 _].
+  intros s4 [I4 [_ G34]].
   apply wpg_bind. eapply wpg_weaken.
-  { apply (wpg_foldM strict _ (fun s' => Inv hh s' /\ NodeOnly s4 s')); [|split; [exact I4 | apply NodeOnly_refl]].
-    intros s' l Hl [I' N']. apply file_products_in_In in Hl. destruct Hl as [Hl _].
+  { apply (wpg_foldM strict _ (fun s' => Inv hh s' /\ NodeOnly s4 s' /\ G3 s4 s')); [|split; [exact I4 | split; [apply NodeOnly_refl | apply G3_refl]]].
+    intros s' l Hl [I' [N' G']]. apply file_products_in_In in Hl. destruct Hl as [Hl _].
     destruct (products_facts _ _ _ I4 Hk Hl) as [P1 P2].
     eapply wpg_weaken.
-    - apply (@node_detach_spec hh); [exact I' | discriminate |]. intros _. apply find_node_KL.
-      rewrite (NodeOnly_KL _ _ N'). exact P2.
-    - intros s'' [I'' [N'' _]]. split; [exact I'' | eapply NodeOnly_trans; eassumption]. }
-  intros s5 [I5 _].
+    - apply wpg_conj_lax.
+      + apply (@node_detach_spec hh); [exact I' | discriminate |]. intros _. apply find_node_KL.
+        rewrite (NodeOnly_KL _ _ N'). exact P2.
+      + apply wpg_of_ok. intros s'' H''. exact (node_detach_G3 _ _ _ H'').
+    - intros s'' [[I'' [N'' _]] G'']. split; [exact I''|]. split; [eapply NodeOnly_trans; eassumption | eapply G3_trans; eassumption]. }
+  intros s5 [I5 [_ G45]].
   apply wpg_bind. eapply wpg_weaken.
   { apply detach_list_spec; [exact I5|]. intros p Hp. apply filter_In in Hp. destruct Hp as [Hp _].
     eapply products_facts; eassumption. }
-  intros s6 [I6 _].
+  intros s6 [I6 [_ G56]].
+  assert (G06 : GG s s6).
+  { apply G3_GG. eapply G3_trans; [exact G02|]. eapply G3_trans; [exact G23|]. eapply G3_trans; [exact G34|].
+    eapply G3_trans; eassumption. }
   eapply wpg_weaken.
   { apply (wpg_foldM_rem strict _ (fun rest s' =>
-             mark_post hh s6 s' /\ incl rest (file_products_in step is_built s6))).
-    - intros s' l rest [[I' [S' O']] Hincl]. eapply wpg_weaken.
-      + apply (@mark_file_outdated_spec hh); [exact I'|]. intros _.
-        assert (Hl : In l (file_products_in step is_built s6)) by (apply Hincl; left; reflexivity).
-        apply file_products_in_In in Hl. destruct Hl as [_ [f [Hf1 Hf2]]].
-        destruct f; try discriminate. destruct (O' l) as [Ho|[_ Ho]]; [left; congruence | right; exact Ho].
-      + intros s'' Hp. split; [eapply mark_post_trans; [|exact Hp]; split; [exact I'|split; assumption]|].
-        intros x Hx. apply Hincl. right. exact Hx.
-    - split; [apply mark_post_refl; exact I6 | apply incl_refl]. }
-  intros s7 [[I7 _] _]. exact I7.
+             mark_post hh s6 s' /\ incl rest (file_products_in step is_built s6) /\
+             (sstate_of step s <> Some SSucceeded -> GG s6 s'))).
+    - intros s' l rest [[I' [S' O']] [Hincl HG']].
+      assert (Hl : In l (file_products_in step is_built s6)) by (apply Hincl; left; reflexivity).
+      apply file_products_in_In in Hl. destruct Hl as [Hprod [f [Hf1 Hf2]]].
+      eapply wpg_weaken.
+      + apply wpg_conj_lax.
+        * apply (@mark_file_outdated_spec hh); [exact I'|]. intros _.
+          destruct f; try discriminate. destruct (O' l) as [Ho|[_ Ho]]; [left; congruence | right; exact Ho].
+        * apply (cond_wpg (sstate_of step s <> Some SSucceeded)); [apply ns_dec|]. intros Hns.
+          apply (@mark_file_outdated_GG hh); [exact I'|]. intros x Hx.
+          rewrite (SO_creator_of _ _ _ S'), (products_creator _ _ _ I6 Hprod) in Hx. inversion Hx; subst x.
+          eapply not_succ_GG; [exact Hns|]. eapply GG_trans; [exact G06 | apply HG'; exact Hns].
+      + intros s'' [Hp HG'']. split; [eapply mark_post_trans; [|exact Hp]; split; [exact I'|split; assumption]|].
+        split; [intros x Hx; apply Hincl; right; exact Hx|].
+        intros Hns. eapply GG_trans; [apply HG'; exact Hns | apply HG''; exact Hns].
+    - split; [apply mark_post_refl; exact I6|]. split; [apply incl_refl | intros _; apply GG_refl]. }
+  intros s7 [[I7 _] [_ G67]]. split; [exact I7|]. intros Hns. eapply GG_trans; [exact G06 | apply G67; exact Hns].
 Qed.
 
 (* ------------------------------------------------------------------------------------------ *)
